@@ -94,7 +94,7 @@ fn gen_case(c: &mut dyn Choices) -> Case {
   if c.pick(8) == 7 {
     script.clear();
     let mut id = 0i64;
-    let m = 35 + c.pick(41);
+    let m = crate::ast::pick_size(c, 35, 41, &[130, 260]);
     let pattern = c.pick(4);
     for i in 0..m {
       id += 1;
